@@ -41,6 +41,8 @@ var catalogue = []shape{
 	// conditional: secret as condition, as chosen branch, as unchosen branch
 	{`s ? p : q`, kBool}, {`b ? s : q`, kStr}, {`b ? q : s`, kStr}, {`s ? l : []`, kBool}, {`s == p ? 1 : 2`, kStr},
 	{`s ? o : null`, kBool}, {`b ? s : o`, kObj},
+	// conditions that are abstracted together with s (u is unknown in the abstract run)
+	{`u ? 1 : s`, kNum}, {`u ? s : 1`, kNum}, {`u ? s : n`, kNum}, {`u ? s : p`, kStr}, {`u ? "a${s}" : "ab"`, kStr}, {`u ? s : l`, kList}, {`u ? [s] : [s, s]`, kStr},
 	// constructors
 	{`[s, p]`, kStr}, {`[p, [s]]`, kBool}, {`{a = s}`, kStr}, {`{(s) = p}`, kStr}, {`{"k" : s, x = q}`, kNum},
 	// index / attribute / legacy index
@@ -58,6 +60,7 @@ var catalogue = []shape{
 	// templates
 	{`"a${s}b"`, kStr}, {`"${s}"`, kStr}, {`"${s}"`, kObj}, {`"n=${s}"`, kNum}, {`"%{if s}x%{else}y%{endif}"`, kBool},
 	{`"%{for x in s}${x},%{endfor}"`, kList}, {`"%{for x in l}${s}%{endfor}"`, kStr}, {`" ${~ s ~} "`, kStr},
+	{`"cafe${s}"`, kStr}, {`"x${s}y${p}"`, kStr},
 	{"<<EOT\n${s}\nEOT\n", kStr}, {"<<-EOT\n  a\n  ${s}\n  EOT\n", kStr}, {`"${b ? s : q}"`, kStr},
 	// nested combinations
 	{`[for x in l : x == s ? p : q]`, kStr}, {`{a = [s]}.a[0]`, kStr}, {`o[s ? "a" : "b"]`, kBool}, {`l[s ? 0 : 1]`, kBool},
@@ -89,6 +92,7 @@ var funcs = map[string]function.Function{"upper": stdlib.UpperFunc, "length": st
 type content struct {
 	s1, s2 string
 	b      bool
+	u      bool // value of the extra condition variable u in concrete runs
 	n      int
 	null   bool // the whole value is a null of its type (only with param nulls=1)
 }
@@ -101,7 +105,12 @@ func newContent(slen int) content {
 		vf.Assume(c.s2[i] >= 0x20 && c.s2[i] < 0x7f)
 	}
 	c.b = vf.Bool()
+	c.u = vf.Bool()
 	c.n = vf.Choice(4)
+	if vf.Param("combining", 0) == 1 && vf.Bool() {
+		// content that starts with a combining mark (U+0301), followed by the symbolic bytes
+		c.s1 = "\u0301" + c.s1
+	}
 	if vf.Param("nulls", 0) == 1 {
 		c.null = vf.Bool()
 	}
@@ -170,10 +179,14 @@ func typeOf(k kind) cty.Type {
 	return cty.Tuple([]cty.Type{cty.String, cty.Bool})
 }
 
-func scope(s cty.Value) *hcl.EvalContext {
+func scope(s cty.Value) *hcl.EvalContext { return scopeU(s, cty.True) }
+
+// scopeU is scope with the extra variable u (a condition that C05 abstracts together with s).
+func scopeU(s, u cty.Value) *hcl.EvalContext {
 	return &hcl.EvalContext{
 		Variables: map[string]cty.Value{
 			"s": s,
+			"u": u,
 			"p": cty.StringVal("a"),
 			"q": cty.StringVal("qq"),
 			"b": cty.True,
